@@ -512,6 +512,11 @@ def do_setup():
         for e in EXTRACT_SETS:
             ok, lg = build_exe(e)
             log('executable', e, 'OK' if ok else 'FAILED', lg[-300:])
+        # the decision extractors must react to an edit of every decision they read (tools/selftest_units.py)
+        rcs, outs = run([PY, os.path.join(VERIF, 'tools', 'selftest_units.py'), REPO])
+        print(outs.strip())
+        if rcs != 0:
+            rc = rc or 4
         # forbidden words
         rcg, outg = run(['grep', '-rnE', r'\b(Admitted|admit|Axiom|Parameter|Conjecture|Unset Guard|bypass_check|Admit Obligations)\b',
                          '--include=*.v', COQ])
